@@ -133,14 +133,32 @@ def classify(api, fspec, base, view, i, j):
     lt = list(T.model_tokens(tok, view.lvals[i], as_set=not bag))
     rt = list(T.model_tokens(tok, view.rvals[j], as_set=not bag))
     if api == 'filter_tables':
+        # table-level order: left rows + the chunk of right rows that holds row j (filter_tables
+        # recomputes the order per job; chunks are the contiguous round()-based partition)
+        n_jobs = base.get('n_jobs', 1) or 1
+        present_r = [x for x in range(len(view.rvals)) if not view.rmiss[x]]
+        if n_jobs < 0:
+            import multiprocessing
+            n_jobs = max(multiprocessing.cpu_count() + 1 + n_jobs, 1)
+        n_jobs = max(1, min(n_jobs, len(present_r)))
+        chunk = present_r
+        if n_jobs > 1:
+            size = 1.0 / n_jobs * len(present_r)
+            for c in range(n_jobs):
+                part = present_r[int(round(c * size)):int(round((c + 1) * size))]
+                if j in part:
+                    chunk = part
+                    break
         cache = getattr(view, '_f7_order', None)
         if cache is None:
-            lists = []
-            for v, m in list(zip(view.lvals, view.lmiss)) + list(zip(view.rvals, view.rmiss)):
-                if not m:
-                    lists.append(T.model_tokens(tok, v, as_set=not bag))
-            cache = view._f7_order = ordering(lists)
-        order = cache
+            cache = view._f7_order = {}
+        ckey = (n_jobs, tuple(chunk[:1]), len(chunk))
+        if ckey not in cache:
+            lists = [T.model_tokens(tok, v, as_set=not bag)
+                     for v, m in zip(view.lvals, view.lmiss) if not m]
+            lists += [T.model_tokens(tok, view.rvals[x], as_set=not bag) for x in chunk]
+            cache[ckey] = ordering(lists)
+        order = cache[ckey]
     else:
         order = ordering([lt, rt])
     lo = sorted(order[x] for x in lt)
